@@ -86,13 +86,26 @@ def wrrBest (now : Nat) : List Backend → Nat → Option (Nat × Int) → Optio
       | some (_, c) => if c < b.cw then wrrBest now bs (i+1) (some (i, b.cw)) else wrrBest now bs (i+1) best
     else wrrBest now bs (i+1) best
 
-def wrrPick (pool : List Backend) (now : Nat) : List Backend × Option Nat :=
+/-- identities (parallel list `ids`) of the eligible backends, in slice order -/
+def eligibleIds (pool : List Backend) (ids : List Nat) (now : Nat) : List Nat :=
+  ((pool.zip ids).filter (fun p => p.1.eligible now)).map (·.2)
+
+/-- running weights restart from zero when the candidate set differs from the previous pick's -/
+def wrrReset (pool : List Backend) (ids lastEl : List Nat) (now : Nat) : List Backend :=
+  if eligibleIds pool ids now = lastEl then pool else pool.map (fun b => { b with cw := 0 })
+
+/-- one smooth-WRR selection over a pool whose running weights are current -/
+def wrrPickCore (pool : List Backend) (now : Nat) : List Backend × Option Nat :=
   let bumped := wrrBump pool now
   match wrrBest now bumped 0 none with
   | none => (bumped, none)
   | some (i, _) =>
     let total : Int := wrrTotal pool now
     (bumped.modify i (fun b => { b with cw := b.cw - total }), some i)
+
+/-- `NextBackend` of the weighted strategy: reset check, then the selection -/
+def wrrPick (pool : List Backend) (ids lastEl : List Nat) (now : Nat) : List Backend × Option Nat :=
+  wrrPickCore (wrrReset pool ids lastEl now) now
 
 /-! ### hash strategies -/
 
@@ -116,6 +129,8 @@ structure Strat where
   kind : Kind
   pool : List Backend
   cur  : Nat := 0
+  ids    : List Nat := []      -- object identities, parallel to `pool` (weighted strategy only)
+  lastEl : List Nat := []      -- identities of the candidates of the previous weighted pick
   deriving Repr
 
 /-- `NextBackend`: new strategy state and the index of the chosen backend -/
@@ -123,7 +138,10 @@ def Strat.next (s : Strat) (now : Nat) (key : Bytes) : Strat × Option Nat :=
   match s.kind with
   | .rr => let r := rrPick s.pool now s.cur; ({ s with cur := r.1 }, r.2)
   | .lc => (s, lcPick s.pool now)
-  | .wrr => let r := wrrPick s.pool now; ({ s with pool := r.1 }, r.2)
+  | .wrr =>
+    if s.pool.length = 0 then (s, none) else
+    let r := wrrPick s.pool s.ids s.lastEl now
+    ({ s with pool := r.1, lastEl := eligibleIds s.pool s.ids now }, r.2)
   | .iphash => (s, ipHashPick s.pool now key)
   | .iphashc => (s, ipHashCPick s.pool now key)
 
